@@ -120,9 +120,11 @@ Classes == {"eq", "adj", "rmax", "pow", "pow1", "far", "mid"}
 Special == Classes \ {"mid"}
 
 \* (P, M) pairs: BIP158's 19/784931, the older 20/2^20, the extremes
-Params == { [p |-> 1, m |-> "2"], [p |-> 1, m |-> "bip"], [p |-> 2, m |-> "pow"], [p |-> 2, m |-> "bip"],
-            [p |-> 19, m |-> "bip"], [p |-> 19, m |-> "pow"], [p |-> 20, m |-> "pow"], [p |-> 20, m |-> "bip"],
-            [p |-> 32, m |-> "bip"], [p |-> 32, m |-> "pow"] }
+ParamsAll == { [p |-> 1, m |-> "2"], [p |-> 1, m |-> "bip"], [p |-> 2, m |-> "pow"], [p |-> 2, m |-> "bip"],
+               [p |-> 19, m |-> "bip"], [p |-> 19, m |-> "pow"], [p |-> 20, m |-> "pow"], [p |-> 20, m |-> "bip"],
+               [p |-> 32, m |-> "bip"], [p |-> 32, m |-> "pow"] }
+\* the quick tier leaves out the two pairs with M = 2^P whose neighbours cover them
+Params == IF Thorough THEN ParamsAll ELSE ParamsAll \ { [p |-> 2, m |-> "pow"], [p |-> 20, m |-> "pow"] }
 
 RECURSIVE Seqs(_, _)
 Seqs(n, S) == IF n = 0 THEN {<< >>} ELSE { Append(s, x) : s \in Seqs(n - 1, S), x \in S }
